@@ -80,18 +80,19 @@ func (h *NFSProcedureHandler) handleReaddir(body io.Reader, reply *RPCReply, aut
 	buf.Write(cookieVerf[:])
 
 	entryCount := 0
-	maxReplySize := int(count) - 100
-	if maxReplySize < 128 {
-		maxReplySize = 128
-	}
 	reachedLimit := false
+	const trailerSize = 8 // end-of-list marker + eof flag
 
 	for i, entry := range entries {
 		if uint64(i) < cookie {
 			continue
 		}
 
-		if buf.Len() >= maxReplySize {
+		// An entry is value_follows + fileid + name (length + padded bytes) + cookie.
+		// Stop before the entry that would push the reply past the client's count,
+		// but always return at least one entry so that the client makes progress.
+		entrySize := 4 + 8 + 4 + (len(path.Base(entry.path))+3)&^3 + 8
+		if entryCount > 0 && buf.Len()+entrySize+trailerSize > int(count) {
 			reachedLimit = true
 			break
 		}
@@ -211,17 +212,16 @@ func (h *NFSProcedureHandler) handleReaddirplus(body io.Reader, reply *RPCReply,
 
 	entryCount := 0
 	reachedLimit := false
-	maxReplySize := int(maxCount) - 200
-	if maxReplySize < 256 {
-		maxReplySize = 256
-	}
+	const trailerSize = 8 // end-of-list marker + eof flag
 
 	for i, entry := range entries {
 		if uint64(i) < cookie {
 			continue
 		}
 
-		if buf.Len() >= maxReplySize && entryCount > 0 {
+		// entryplus3: value_follows + fileid + name + cookie + post_op_attr (4+84) + post_op_fh3 (4+4+8)
+		entrySize := 4 + 8 + 4 + (len(path.Base(entry.path))+3)&^3 + 8 + 88 + 16
+		if entryCount > 0 && buf.Len()+entrySize+trailerSize > int(maxCount) {
 			reachedLimit = true
 			break
 		}
